@@ -385,7 +385,7 @@ def run_case(base, case, acc, A):
                 # one of them may not exist, nothing uniquely defined to compare
                 acc.count("second_call_not_comparable_unbounded_envelope")
                 differs = False
-            if differs and name.startswith("production_envelope") and _envelope_outside_fva_domain(m_use):
+            if differs and name.startswith("production_envelope") and _envelope_outside_fva_domain(m_use, None if name == "production_envelope" else (a2.get("rxn") if name == "production_envelope(objective)" else a2.get("rxn_obj"))):
                 # the envelope takes its grid from flux_variability_analysis(fraction_of_optimum=0), which is defined
                 # for "fraction in [0, 1] when the optimum has the sign of the direction" (C05's quantifier, from the
                 # docstring).  A minimisation whose optimum is positive - here: a user's permanent objective requirement
@@ -484,11 +484,17 @@ def inject_solver_faults(acc, fn, name, m_use, a2, before, ident, wrec, base, ca
     return True
 
 
-def _envelope_outside_fva_domain(m):
-    """True when the model's optimum does not have the sign of its direction (>= 0 when maximising, <= 0 when
-    minimising) - decided by the solver's own answer on a copy, with a margin."""
+def _envelope_outside_fva_domain(m, objective=None):
+    """True when the optimum of the objective the envelope works with (the `objective` argument when one is given,
+    else the model's own) does not have the sign of the model's direction (>= 0 when maximising, <= 0 when
+    minimising) - decided by the solver's own answer on a copy, with a margin.  (Thorough tier, seed 7: model
+    without objective, direction min, `objective=` a reaction with lower bound 1: the internal FVA asks for
+    objective <= 0 * 1, infeasible, and the grid is whatever the solver held last.)"""
     try:
         c = m.copy()
+        if objective is not None:
+            c.objective = c.reactions.get_by_id(objective if isinstance(objective, str) else objective.id)
+            c.objective_direction = m.objective_direction
         v = c.slim_optimize()
         if v != v:
             return True  # no optimum at all
